@@ -214,7 +214,7 @@ func TestC03Hierarchy(t *testing.T) {
 	}
 	kit.SetChecks(60, 150)
 	rapid.Check(t, func(rt *rapid.T) {
-		spec := memsys.GenAssembly(rt, memsys.GenOpts{MaxOps: 40, WTMinLatency: 1, Bottoms: []string{"ideal", "banked", "dram"}})
+		spec := memsys.GenAssembly(rt, memsys.GenOpts{MaxOps: 40, Bottoms: []string{"ideal", "banked", "dram"}})
 		if rapid.Bool().Draw(rt, "pt") {
 			spec.PTLog2, spec.PTPages = 12, rapid.IntRange(0, 6).Draw(rt, "ptPages")
 		}
